@@ -1091,6 +1091,8 @@ def _describe_place(prog, body, pl, depth, seen):
                 base = ("field", base, idx)
         elif f[0] == "i":
             base = ("index", base, _describe_local(prog, body, f[1], depth + 1, seen))
+        elif base[0] == "array" and isinstance(f[1], int) and 0 <= f[1] < len(base[1]) and not (len(f) > 3 and f[3]):
+            base = base[1][f[1]]          # constant index into an array built in place (`let [a, b] = [x, y]`)
         else:
             base = ("index", base, ("lit", f[1]))
     return base
